@@ -56,7 +56,8 @@ _UNIT_OF = {'Handler': 'Handler', 'Session': 'Plan', 'Universe': 'Kernels', 'Opt
 # hand-written corollaries that restate property clauses for the translated source (QsProofs/Tie/Lifted.lean); the module
 # refers to these tie theorems, so it is only built when all of them are proved
 LIFTED_REQUIRES = ['Position.totalPnl', 'Position.realised', 'Position.unrealised', 'Position.avgPrice', 'Position.net',
-                   'Position.transact', 'PercentFee.totalCost', 'ZeroFee.totalCost', 'DW.quantity', 'LS.quantity', 'Broker.makeTxn']
+                   'Position.transact', 'PercentFee.totalCost', 'ZeroFee.totalCost', 'DW.quantity', 'LS.quantity', 'Broker.makeTxn',
+                   'DW.checkBuffer', 'LS.checkLeverage']
 # a second module of the same kind (QsProofs/Tie/LiftedBroker.lean): account-level broker requests
 LIFTED2_REQUIRES = ['Broker.checkFunds', 'Broker.checkCurrency', 'Broker.subscribeAccount', 'Broker.withdrawAccount',
                     'Broker.subscribePortfolio', 'Broker.withdrawPortfolio']
@@ -71,8 +72,8 @@ LIFTED_BY_PROP = {
     'C02': ['Qs.Tie.C02_src_transact'],
     'C03': ['Qs.Tie.C03_src_total', 'Qs.Tie.C03_src_avgPrice'],
     'C05': ['Qs.Tie.C05_src_fill', 'Qs.Tie.C05_src_percent', 'Qs.Tie.C05_src_zero'],
-    'C10': ['Qs.Tie.C10_src_quantity'],
-    'C11': ['Qs.Tie.C11_src_quantity'],
+    'C10': ['Qs.Tie.C10_src_quantity', 'Qs.Tie.C10_src_buffer'],
+    'C11': ['Qs.Tie.C11_src_quantity', 'Qs.Tie.C11_src_leverage'],
 }
 
 
